@@ -47,12 +47,17 @@ Definition c_E := 69. Definition c_e := 101.
 Definition is_digit (c : cp) : bool := (48 <=? c) && (c <=? 57).
 Definition is_upper (c : cp) : bool := (65 <=? c) && (c <=? 90).
 Definition is_lower (c : cp) : bool := (97 <=? c) && (c <=? 122).
-(* Python str.isspace / re \s restricted to code points < 128 *)
+(* Python str.isspace / re \s (str patterns are Unicode aware): TAB LF VT FF CR FS GS RS US SPACE, and beyond
+   ASCII: NEL, NBSP, OGHAM SPACE MARK, EN QUAD .. HAIR SPACE, LS, PS, NNBSP, MMSP, IDEOGRAPHIC SPACE *)
+Definition is_uni_space (c : cp) : bool :=
+  (c =? 133) || (c =? 160) || (c =? 5760) || ((8192 <=? c) && (c <=? 8202)) || (c =? 8232) || (c =? 8233)
+  || (c =? 8239) || (c =? 8287) || (c =? 12288).
 Definition is_space (c : cp) : bool :=
-  ((9 <=? c) && (c <=? 13)) || ((28 <=? c) && (c <=? 32)).
-(* re \w : [A-Za-z0-9_] and (model restriction) every code point >= 128 *)
+  ((9 <=? c) && (c <=? 13)) || ((28 <=? c) && (c <=? 32)) || is_uni_space c.
+(* re \w : [A-Za-z0-9_] and (model restriction) every code point >= 128 that is not white space; the
+   correspondence check feeds letters and white space beyond ASCII, not symbols or punctuation *)
 Definition is_word (c : cp) : bool :=
-  is_digit c || is_upper c || is_lower c || (c =? c_us) || (128 <=? c).
+  is_digit c || is_upper c || is_lower c || (c =? c_us) || ((128 <=? c) && negb (is_uni_space c)).
 Definition is_quote (c : cp) : bool := (c =? c_sq) || (c =? c_dq).
 Definition is_sign (c : cp) : bool := (c =? c_plus) || (c =? c_minus).
 
